@@ -38,6 +38,10 @@ SPECIES = {
     "#H": ({"H": 1}, 0),
     "#H2": ({"H": 2}, 0),
     "#CO": ({"C": 1, "O": 1}, 0),
+    # dust grains carry charge like any other species (recombination / electron capture on grains)
+    "GRAIN0": ({"GRAIN": 1}, 0),
+    "GRAIN-": ({"GRAIN": 1}, -1),
+    "GRAIN+": ({"GRAIN": 1}, 1),
 }
 QUICK_SPECIES = ["H", "H+", "H-", "e-", "E", "H2", "H2+", "H3+", "oH2", "#H", "#H2", "D", "HD"]
 
@@ -82,7 +86,7 @@ def cases(tier):
         singles = balanced_reactions(QUICK_SPECIES, 2, 3)
         pool = singles[::max(1, len(singles) // 24)][:24]
     else:
-        singles = balanced_reactions(list(SPECIES), 3, 3)
+        singles = balanced_reactions([x for x in SPECIES if not x.startswith("GRAIN")], 3, 3)
         pool = singles[::max(1, len(singles) // 60)][:60]
     for r, p in singles:
         yield {"reactions": [[r, p]], "family": "single"}
@@ -96,6 +100,10 @@ def cases(tier):
         (["#H2"], ["H2"]),
         (["oH2"], ["pH2"]),
         (["H2", "e-"], ["H", "H-"]),
+        (["e-", "GRAIN0"], ["GRAIN-"]),
+        (["H+", "GRAIN-"], ["H", "GRAIN0"]),
+        (["H+", "GRAIN0"], ["H", "GRAIN+"]),
+        (["E", "GRAIN+"], ["GRAIN0"]),
     ]
     pool = pool + [(a, b) for a, b in extra]
     for a in pool:
